@@ -72,6 +72,7 @@ func registerStd(p *Program) {
 	registerJSON(p)
 	registerJDoc(p)
 	registerJSONSchema(p)
+	registerJDump(p)
 	registerTrace(p)
 	registerGob(p)
 
